@@ -16,7 +16,7 @@ macro_rules! array {
         array_tuple!(Tuple2<$t1, $t2>, format!("{:?}", vec![$(vec![$x],)*]))
     }};
     (Tuple3<$t1:ty, $t2:ty, $t3:ty>, $($x:expr),* $(,)*) => {{
-        array_tuple!(Tuple3<$t1, $t2, $t3>, format!("{:?}", vec![$($x,)*]))
+        array_tuple!(Tuple3<$t1, $t2, $t3>, format!("{:?}", vec![$(vec![$x],)*]))
     }};
     (List<$tt:ty>, $x:expr) => {{
         array_list!(List<$tt>, format!("{:?}", vec![$x]))
